@@ -161,6 +161,27 @@ func c05Engine(c *Ctx) {
 	}
 	if fn := c.Fn("C05/E3", pk, "FSM", "SetState"); fn != nil {
 		n := 0
+		// the assignment may live in a helper of the same package that SetState calls (a helper with a deferred
+		// unlock is not expanded in place): judge it where it is
+		hasStore := func(f *ssa.Function) bool {
+			found := false
+			ssax.Instrs(f, func(in ssa.Instruction) {
+				if st, ok := in.(*ssa.Store); ok {
+					if fa, ok := st.Addr.(*ssa.FieldAddr); ok && ssax.FieldOf(fa) != nil && ssax.FieldOf(fa).Name() == "currentState" {
+						found = true
+					}
+				}
+			})
+			return found
+		}
+		if !hasStore(fn) {
+			for _, call := range ssax.Calls(fn, false, func(ssa.CallInstruction) bool { return true }) {
+				if sc := call.Common().StaticCallee(); sc != nil && sc.Pkg == fn.Pkg && len(sc.Blocks) > 0 && hasStore(sc) {
+					fn = sc
+					break
+				}
+			}
+		}
 		ssax.Instrs(fn, func(in ssa.Instruction) {
 			st, ok := in.(*ssa.Store)
 			if !ok {
